@@ -27,7 +27,7 @@ def same(snap, obj):
         if not isinstance(obj, type(snap[1])) or not snap[1].equals(obj):
             return False
         return (snap[2] == (str(obj.index.tz) if hasattr(obj.index, "tz") else None) and snap[3] == list(getattr(obj, "columns", []))
-                and snap[5] == getattr(obj, "name", None) and snap[1].index.equals(obj.index))
+                and snap[5] == getattr(obj, "name", None) and snap[1].index.equals(obj.index) and snap[4] == str(getattr(obj.index, "freq", None)))
     return snap[1] == obj
 
 
